@@ -79,6 +79,8 @@ PROGRAMS = {
     "defer": {"msgs": [M("open_run"), M("null"), M("checkpoint"), M("null"), M("null"), M("checkpoint"), M("null"), M("close_run")]},
     "norew": {"msgs": [M("open_run"), M("checkpoint"), M("null"), M("rewindable", a="F"), M("null"), M("null"),
                        M("rewindable", a="T"), M("null"), M("close_run")]},
+    "norew_save": {"msgs": [M("open_run"), M("checkpoint")] + _point + [M("rewindable", a="F")] + _point + _point + [M("rewindable", a="T")]
+                           + _point + [M("null"), M("null"), M("checkpoint")] + _point + [M("close_run")]},
     "paus": {"msgs": [M("stage", "pdet"), M("open_run"), M("checkpoint"), M("trigger", "pdet", a="g1"), M("wait", a="g1"),
                       M("create", a="primary"), M("read", "pdet"), M("save"), M("close_run"), M("unstage", "pdet")]},
     "err": {"msgs": [M("open_run"), M("checkpoint"), M("null"), M("null"), M("close_run", a="fail"), M("null")],
@@ -402,7 +404,7 @@ def corpus_spec(tier):
     quick = tier == "quick"
     sweeps = []
     progs = ["simple", "two", "fin", "move", "mon", "multi", "defer", "norew", "paus", "err", "openonly",
-             "selfpause", "selfpause_nores", "selfdefer_nores"]
+             "selfpause", "selfpause_nores", "selfdefer_nores", "norew_save"]
     kinds = REQ_KINDS
     if quick:
         sweeps.append(dict(plans=progs, kinds=["pause", "suspend", "abort"], decisions=["resume"], ri=True))
